@@ -120,20 +120,23 @@ Qed.
 Lemma land_mask_idem ip len : N.land (N.land ip (mask_of len)) (mask_of len) = N.land ip (mask_of len).
 Proof. rewrite <- N.land_assoc, N.land_diag. reflexivity. Qed.
 
-Lemma eval_sem : forall e v, wf_cond e = true -> wf_layer v = true -> eval e v = sem e v.
+Lemma eval_sem : forall e v, has_empty_any e = false ->
+  wf_cond e = true -> wf_layer v = true -> eval e v = sem e v.
 Proof.
   intros e v. induction e as [l IH|l IH|c IH|b|ip len|ip len|t|d|n|lo hi|lo hi|n] using cond_ind';
-    intros We Wv.
-  - rewrite eval_all. cbn [sem]. cbn [wf_cond] in We.
+    intros Ne We Wv.
+  - rewrite eval_all. cbn [sem]. cbn [wf_cond has_empty_any] in We, Ne.
     induction IH as [|x r Hx Hr IHr]; [reflexivity|].
-    cbn [forallb] in *. apply andb_true_iff in We as [W1 W2].
+    cbn [forallb existsb] in *. apply andb_true_iff in We as [W1 W2]. apply orb_false_iff in Ne as [N1 N2].
     rewrite Hx, IHr by assumption. reflexivity.
   - rewrite eval_any. cbn [sem]. cbn [wf_cond] in We.
-    destruct l as [|y l0]; [reflexivity|]. revert IH We. generalize (y :: l0). intros m IH We.
+    destruct l as [|y l0]; [discriminate Ne|].
+    assert (Ne' : existsb has_empty_any (y :: l0) = false) by exact Ne. clear Ne.
+    revert IH We Ne'. generalize (y :: l0). intros m IH We Ne.
     induction IH as [|x r Hx Hr IHr]; [reflexivity|].
-    cbn [forallb existsb] in *. apply andb_true_iff in We as [W1 W2].
+    cbn [forallb existsb] in *. apply andb_true_iff in We as [W1 W2]. apply orb_false_iff in Ne as [N1 N2].
     rewrite Hx, IHr by assumption. reflexivity.
-  - cbn [eval sem]. cbn [wf_cond] in We. rewrite IH by assumption. reflexivity.
+  - cbn [eval sem]. cbn [wf_cond has_empty_any] in We, Ne. rewrite IH by assumption. reflexivity.
   - reflexivity.
   - cbn [eval sem]. destruct v as [p|]; [|reflexivity]. cbn [wf_cond wf_layer] in *.
     apply contains_div; lia.
@@ -1136,21 +1139,21 @@ Qed.
 Lemma bools_eqb_refl l : bools_eqb l l = true.
 Proof. apply list_eqb_eq; [intros x y; apply Bool.eqb_true_iff|reflexivity]. Qed.
 
-Lemma evals_sem e ps : wf_cond e = true -> forallb wf_layer ps = true ->
+Lemma evals_sem e ps : has_empty_any e = false -> wf_cond e = true -> forallb wf_layer ps = true ->
   List.map (sem e) ps = evals e ps.
 Proof.
-  intros We Wp. unfold evals. induction ps as [|p ps IH]; [reflexivity|].
+  intros Ne We Wp. unfold evals. induction ps as [|p ps IH]; [reflexivity|].
   cbn [forallb] in Wp. apply andb_true_iff in Wp as [W1 W2]. cbn [List.map].
-  rewrite (eval_sem e p We W1), (IH W2). reflexivity.
+  rewrite (eval_sem e p Ne We W1), (IH W2). reflexivity.
 Qed.
 
 Lemma evals_norm e ps : evals (norm e) ps = evals e ps.
 Proof. unfold evals. apply map_ext. intros v. apply norm_eval. Qed.
 
-Lemma tree_oracle_model e ps : wf_cond e = true -> forallb wf_layer ps = true ->
+Lemma tree_oracle_model e ps : has_empty_any e = false -> wf_cond e = true -> forallb wf_layer ps = true ->
   let '(_, ev, re) := tree_model e ps in tree_oracle e ps ev re = true.
 Proof.
-  intros We Wp. unfold tree_model, tree_oracle. rewrite (evals_sem e ps We Wp), bools_eqb_refl.
+  intros Ne We Wp. unfold tree_model, tree_oracle. rewrite (evals_sem e ps Ne We Wp), bools_eqb_refl.
   cbn [andb]. destruct (printable e) eqn:Hp; [|reflexivity].
   unfold pobs_of. rewrite (parse_print e Hp). cbn [reparse_ok]. rewrite evals_norm. apply bools_eqb_refl.
 Qed.
